@@ -57,12 +57,13 @@ def bump(stats, key, n=1):
 # worker side
 
 _CHECK = None
+_DEBUG = bool(os.environ.get("VERIF_DEBUG"))
 
 
 def _worker_chunk(args):
     (verif_seed, tier, start, count, want_digests, want_samples) = args
     chk = _CHECK
-    faulthandler.dump_traceback_later(RUN_WALL_CAP_S + count * 2, exit=True)
+    faulthandler.dump_traceback_later(RUN_WALL_CAP_S + count * getattr(chk, 'RUN_S', 2), exit=True)
     agg = {
         "runs": 0, "stats": {}, "nontrivial": set(), "isigs": set(), "states": set(),
         "violations": [], "digests": {}, "samples": [], "sim_time": 0.0, "steps": 0,
@@ -71,8 +72,12 @@ def _worker_chunk(args):
     for idx in range(start, start + count):
         run_seed = derive(verif_seed, "run", idx)
         try:
+            _t0 = time.time()
             sc = chk.gen(run_seed, tier)
+            _t1 = time.time()
             res = chk.run(sc)
+            if _DEBUG and time.time() - _t0 > 1.0:
+                sys.stderr.write("SLOW-RUN idx=%d gen=%.2fs run=%.2fs\n" % (idx, _t1 - _t0, time.time() - _t1))
         except BaseException as e:  # harness bug: classified apart from VIOLATION
             agg["harness"].append(
                 {"run_index": idx, "run_seed": run_seed,
@@ -200,6 +205,10 @@ def main(chk, argv=None):
     a = ap.parse_args(argv)
     seed = int(os.environ.get("VERIF_SEED") or 0)
 
+    if a.replay or a.one is not None:
+        init = getattr(chk, "process_init", None)
+        if init is not None:
+            init()
     if a.replay:
         return _replay(chk, a.replay)
     if a.one is not None:
@@ -317,7 +326,7 @@ def main(chk, argv=None):
                         known_hit, notes, replays, budget, runs)
     print(f"[{chk.PROP}] runs={out['runs']} nontrivial_distinct={len(out['nontrivial'])} "
           f"interleavings={len(out['isigs'])} violations={nviol} known={len(known_hit)} "
-          f"wall={wall:.1f}s exit={status}", flush=True)
+          f"batch={wall_batch:.1f}s wall={wall:.1f}s exit={status}", flush=True)
     return status
 
 
@@ -325,12 +334,17 @@ def _pin():
     # one CPU per worker: baton hand-offs between a worker's threads stay on one
     # core (3-4x faster than cross-core futex wake-ups); no effect on results
     try:
+        if os.environ.get("VERIF_NOPIN") or getattr(_CHECK, "NO_PIN", False):
+            raise OSError
         cpus = sorted(os.sched_getaffinity(0))
         ident = multiprocessing.current_process()._identity
         k = (ident[0] - 1) if ident else 0
         os.sched_setaffinity(0, {cpus[k % len(cpus)]})
     except (AttributeError, OSError):
         pass
+    init = getattr(_CHECK, "process_init", None)
+    if init is not None:
+        init()   # e.g. fork the pristine zygote before this worker has any history
 
 
 def _pool(procs):
